@@ -421,6 +421,9 @@ class Sys:
 
         def f(a):
             v = a[i]
+            if not (isinstance(v, np.ndarray) and v.shape == (self.k,)):
+                self.ctx.note("view_mutation_skipped_value_is_%s" % type(v).__name__)
+                return
             if how == "setitem":
                 v[j] = y
             else:
@@ -878,7 +881,7 @@ def cases(seed, tier):
                 out.append({"gen": "anchor", "script": script, "type": cat, "arity": k, "container": ["data", "corner"][i % 2],
                             "layout": ["separate", "shared"][(i // 2) % 2], "seed": i})
                 i += 1
-    n = 3000 if tier == "quick" else 60000
+    n = 3000 if tier == "quick" else 150000
     maxlen = 25 if tier == "quick" else 60
     for j in range(n):
         k = [1, 3, 2, 1, 4, 3, 2, 1][j % 8]
@@ -891,8 +894,9 @@ def cases(seed, tier):
     for cat in EX_TYPES:
         for k in EX_ARITIES:
             for first in range(len(EX_ALPHABET)):
-                out.append({"gen": "exhaustive", "type": cat, "arity": k, "first": first, "len": exlen,
-                            "container": "corner" if (first + k) % 2 else "data", "seed": 0})
+                kinds = ["corner" if (first + k) % 2 else "data"] if tier == "quick" else ["data", "corner"]
+                for kind in kinds:
+                    out.append({"gen": "exhaustive", "type": cat, "arity": k, "first": first, "len": exlen, "container": kind, "seed": 0})
     return out
 
 
